@@ -94,11 +94,15 @@ pub struct Tok {
 
 impl Payload for Tok {
     fn make(tid: u64, val: u64) -> Self {
-        MADE.with(|m| *m.borrow_mut() += 1);
+        // token ids >= 2^40 are scratch payloads made by probes on clones: owned heap block, not accounted
+        let scratch = tid >= 1 << 40;
+        if !scratch {
+            MADE.with(|m| *m.borrow_mut() += 1);
+        }
         Tok {
             tid,
             heap: Box::new(val),
-            ghost: false,
+            ghost: scratch,
         }
     }
     fn tid(&self) -> u64 {
